@@ -13,7 +13,11 @@ import (
 	"math/big"
 	"strings"
 
+	ethchain "github.com/Oneledger/protocol/chains/ethereum"
 	"github.com/Oneledger/protocol/chains/ethereum/contract"
+	"github.com/Oneledger/protocol/data/balance"
+	"github.com/Oneledger/protocol/data/chain"
+	ethcmn "github.com/ethereum/go-ethereum/common"
 	"github.com/ethereum/go-ethereum/accounts/abi"
 	ethtypes "github.com/ethereum/go-ethereum/core/types"
 
@@ -238,7 +242,30 @@ func maxEvents(cs []config) int {
 func world(c config) *harness.World {
 	w := xch.EthWorld("c15-"+c.Name, c.N+1, c.N+1)
 	w.Vals[c.N].Witness = false
+	// THREE listed tokens, the one the alphabet uses in the middle: a lookup that returns the first or the last
+	// entry of the list instead of the matching one mints, debits or refunds another currency. (Added after a
+	// seeded change - GetToken returning a pointer to the loop variable, i.e. the last listed token - escaped
+	// worlds with a single listed token.)
+	tl := w.Gov.ETHCDOption.TokenList
+	before, after := tl[0], tl[0]
+	before.TokName, before.TokAddr = "TTA", ethcmn.HexToAddress("0x00000000000000000000000000000000000C0DA1")
+	after.TokName, after.TokAddr = "TTZ", ethcmn.HexToAddress("0x00000000000000000000000000000000000C0DA2")
+	w.Gov.ETHCDOption.TokenList = []ethchain.ERC20Token{before, tl[0], after}
+	w.Currencies = append(w.Currencies,
+		balance.Currency{Id: 5, Name: "TTA", Chain: chain.TESTTOKEN, Decimal: 18, Unit: "testUnits"},
+		balance.Currency{Id: 6, Name: "TTZ", Chain: chain.TESTTOKEN, Decimal: 18, Unit: "testUnits"})
 	return w
+}
+
+// wrapped lists the currencies whose every balance is compared with the reference ledger.
+var wrapped = []string{"ETH", "TTC", "TTA", "TTZ"}
+
+func newWrappedLedger() map[string]map[string]*big.Int {
+	m := map[string]map[string]*big.Int{}
+	for _, c := range wrapped {
+		m[c] = map[string]*big.Int{}
+	}
+	return m
 }
 
 var e18 = big.NewInt(1000000000000000000)
